@@ -134,12 +134,12 @@ def conc_case(args):
         programs = {0: block, 1: [{'m': 'set', 'now': 1000, 'k': forced['k'], 'v': BIG2, 'ttl': None, 'tag': None}]}
         units = {0: [list(range(len(block)))], 1: [[0]]}
     out = []
-    bound = (18 if tier == 'quick' else 50) if not forced else 45
+    bound = (18 if tier == 'quick' else 32) if not forced else 45
     scheds = []
     for a, b in ((0, 1), (1, 0)):
         for k in range(0, bound):
             scheds.append([a] * k + [b] * 400 + [a] * 400)
-    for _ in range(4 if tier == 'quick' else 30):
+    for _ in range(4 if tier == 'quick' else 16):
         scheds.append(rng.choices([0, 1], k=rng.randint(5, 60)))
     for sch in scheds:
         run = conc.run_concurrent(cfg, preset, programs, sch, shared=shared)
@@ -157,7 +157,7 @@ def run(tier, seed, rng, known, replay):
     dist, distinct = base.op_distribution(hists, r['impl_out'])
     violations = list(r['violations'])
     # (b) concurrent blocks
-    n_cases = 24 if tier == 'quick' else 300
+    n_cases = 24 if tier == 'quick' else 120
     seeds = [rng.getrandbits(48) for _ in range(n_cases)]
     jobs = [(s, tier) for s in seeds]
     for i, (abort, n, k) in enumerate([(True, 1, 'a'), (True, 2, 'b'), (False, 1, 'a'), (False, 2, 'b'), (True, 3, 'a'), (False, 3, 'b')]):
